@@ -12,6 +12,8 @@ BASE = "f5e74bf"       # /repo HEAD the fourth-wave patches were written against
 print("| seed | change (from the sub-agent's note) | demo exit (clean/changed) | 49 tests | checks (quick, scratch worktree at %s) |" % BASE)
 print("|---|---|---|---|---|")
 for d in sorted(glob.glob(os.path.join(V, "seeded", "C??-[34]"))):
+    if os.path.basename(d)[:3] not in ("C04", "C05", "C07", "C08", "C10", "C11", "C13", "C14", "C16", "C18"):
+        continue
     mp = os.path.join(d, "meta.json")
     m = json.load(open(mp)) if os.path.exists(mp) else {}
     note = open(os.path.join(d, "note.txt")).read() if os.path.exists(os.path.join(d, "note.txt")) else ""
